@@ -21,6 +21,7 @@ SPECS = {
     "analyzer_rule": ("gen_analyzer_rule", ["matid/symmetry/symmetryanalyzer.py"], ["MatidGen/AnalyzerRule.lean"]),
     "sbc_rule": ("gen_sbc_rule", ["matid/clustering/sbc.py", "matid/core/periodicfinder.py"], ["MatidGen/SbcRule.lean"]),
     "classifier_rule": ("gen_classifier_rule", ["matid/classification/classifier.py"], ["MatidGen/ClassifierRule.lean"]),
+    "proto_rule": ("gen_proto_rule", ["matid/core/periodicfinder.py"], ["MatidGen/ProtoRule.lean"]),
     "dim_rule": ("gen_dim_rule", ["matid/geometry/geometry.py", "matid/clustering/sbc.py"], ["MatidGen/DimRule.lean"]),
 }
 
